@@ -1,0 +1,52 @@
+//go:build verif
+
+package discover
+
+import (
+	"crypto/ecdsa"
+	"net"
+)
+
+// Verification-harness exports (read-only): the discovery packet codec.
+
+// HeadSizeVerif is the size of hash + signature in front of every packet.
+const HeadSizeVerif = headSize
+
+// EncodePacketVerif builds a signed packet of the given kind (1 ping, 2 pong, 3 findnode, 4 neighbors) with
+// sample contents and the given expiration.
+func EncodePacketVerif(priv *ecdsa.PrivateKey, kind byte, expiration uint64, nNodes int) ([]byte, error) {
+	ep := rpcEndpoint{IP: net.IPv4(127, 0, 0, 1), UDP: 30303, TCP: 30303}
+	var req interface{}
+	switch kind {
+	case pingPacket:
+		req = ping{Version: Version, From: ep, To: ep, Expiration: expiration}
+	case pongPacket:
+		req = pong{To: ep, ReplyTok: make([]byte, 32), Expiration: expiration}
+	case findnodePacket:
+		req = findnode{Target: PubkeyID(&priv.PublicKey), Expiration: expiration}
+	default:
+		nb := neighbors{Expiration: expiration}
+		for i := 0; i < nNodes; i++ {
+			nb.Nodes = append(nb.Nodes, rpcNode{IP: net.IPv4(10, 0, 0, byte(i)), UDP: uint16(i), TCP: uint16(i), ID: PubkeyID(&priv.PublicKey)})
+		}
+		req = nb
+		kind = neighborsPacket
+	}
+	return encodePacket(priv, kind, req)
+}
+
+// DecodePacketVerif runs decodePacket and reports the kind of the decoded request (0 = none).
+func DecodePacketVerif(buf []byte) (kind byte, from NodeID, hash []byte, err error) {
+	req, id, h, err := decodePacket(buf)
+	switch req.(type) {
+	case *ping:
+		kind = pingPacket
+	case *pong:
+		kind = pongPacket
+	case *findnode:
+		kind = findnodePacket
+	case *neighbors:
+		kind = neighborsPacket
+	}
+	return kind, id, h, err
+}
